@@ -11,7 +11,7 @@ import (
 
 func init() {
 	register(&Meta{ID: "C11", Level: "exploration", QuickSec: 40, ThoroSec: 900, WallMaxS: 60,
-		Rule: "each run = one seeded sequence of storage.Engine calls on a forked kvstore (table size 128-1024 B, 3-6 keys, value sizes 1 B up to half a table so that keys spread, get overwritten and deleted across tables): Put, PutRaw, Delete, UpdateTTL, single Compaction steps and compaction-to-completion, Export+Import+Drop of one table into a second store (newest timestamp wins), clock advances that release idle tables; after every mutating step the affected key and Stats().Length are compared with a reference map, and Range, Scan (several page sizes, with and without a pattern), GetRaw/GetTTL/GetKey/Check sweeps run every few steps; half of the runs are short sequences (<= 6 mutating steps over a 3-key / 3-size alphabet, sampled densely), half are long (40-250 steps); non-trivial = the store spanned >= 2 tables and a compaction step or a transfer ran; distinct = sequences of (operation, key, size class)",
+		Rule: "each run = one seeded sequence of storage.Engine calls on a forked kvstore (table size 128-1024 B, 3-6 keys, value sizes 1 B up to half a table so that keys spread, get overwritten and deleted across tables): Put, PutRaw, Delete, UpdateTTL, single Compaction steps and compaction-to-completion, Export+Import+Drop of one table into a second store (newest timestamp wins), clock advances that release idle tables; after every mutating step the affected key and Stats().Length are compared with a reference map, and Range, Scan (several page sizes, with and without a pattern), GetRaw/GetTTL/GetKey/Check sweeps run every few steps; 60 % of the runs end with 1-3 paused scans (one page, then deletes, writes and compaction steps that may recycle the table under the cursor, then the rest of the scan: every key untouched in between must have been yielded); half of the runs are short sequences (<= 6 mutating steps over a 3-key / 3-size alphabet, sampled densely), half are long (40-250 steps); non-trivial = the store spanned >= 2 tables and a compaction step or a transfer ran; distinct = sequences of (operation, key, size class)",
 		Assume: []string{"the store is driven single-threaded, as under the fragment lock; the 'schedule' is the order of foreground calls, background compaction steps, transfers and clock advances", "exhaustive enumeration of short sequences would be model checking and is not claimed: the number of distinct short sequences covered is reported"},
 	}, genC11, oracleC11)
 }
@@ -98,6 +98,34 @@ func genC11(seed uint64, tier string) *plan.Plan {
 			full()
 		}
 	}
+	if r.Bool(600) {
+		// a paused scan: one page, then deletes, writes and compaction (which may recycle the table the
+		// cursor points into), then the rest of the scan; keys untouched in between must be visited
+		for ep, n := 0, r.Range(1, 3); ep < n; ep++ {
+			sc.Ops = append(sc.Ops, plan.Op{K: "eng.scanpage", M: 0, Count: Pick(r, 1, 1, 2), Tag: "begin"})
+			for j, m := 0, r.Range(1, 2*nkeys); j < m; j++ {
+				k := keys[r.Intn(nkeys)]
+				tsn++
+				switch x := r.Intn(100); {
+				case x < 50:
+					sc.Ops = append(sc.Ops, plan.Op{K: "eng.del", Key: k, M: 0})
+				case x < 65:
+					sc.Ops = append(sc.Ops, plan.Op{K: "eng.put", Key: k, Val: strings.Repeat("z", max(1, sizes[r.Intn(len(sizes))])), M: 0, Count: tsn})
+				case x < 80:
+					sc.Ops = append(sc.Ops, plan.Op{K: "eng.compact", M: 0})
+				default:
+					sc.Ops = append(sc.Ops, plan.Op{K: "eng.compact_all", M: 0})
+				}
+			}
+			sc.Ops = append(sc.Ops, plan.Op{K: "eng.scanpage", M: 0, Count: Pick(r, 1, 2, 10), Tag: "rest"})
+			// refill, so that the next episode starts from several tables again
+			for _, k := range keys {
+				tsn++
+				sc.Ops = append(sc.Ops, plan.Op{K: "eng.put", Key: k, Val: strings.Repeat("y", max(1, sizes[r.Intn(len(sizes))])), M: 0, Count: tsn})
+			}
+		}
+		sweep()
+	}
 	sc.Ops = append(sc.Ops, plan.Op{K: "eng.compact_all", M: 0}, plan.Op{K: "eng.compact_all", M: 1})
 	full()
 	p.Phases = []plan.Phase{{Name: "engine", Clients: []plan.Script{sc}}}
@@ -132,6 +160,7 @@ func oracleC11(p *plan.Plan, his []plan.Rec, res *plan.Result) {
 	pending := false // a transfer happened: the next sweep re-synchronises which keys moved
 	var before [2]map[string]engEntry
 	multi, background := false, false
+	var stable, yielded [2]map[string]bool // an open paused scan per store: keys untouched since it began / keys it yielded
 	recs := sortRecs(his)
 	short := p.Params["short"] != 0
 	subj := func(r *plan.Rec) string {
@@ -172,12 +201,46 @@ func oracleC11(p *plan.Plan, his []plan.Rec, res *plan.Result) {
 				continue
 			}
 			model[st][r.Op.Key] = engEntry{r.Op.Val, r.Op.Delta, int64(r.Op.Count)}
+			delete(stable[st], r.Op.Key)
+		case "eng.scanpage":
+			if r.Err != "" {
+				viol(res, "scan-failed", subj(r), "paused scan: %s [%s]", r.Err, p.Variant)
+				stable[st] = nil
+				continue
+			}
+			if r.Op.Tag == "begin" {
+				stable[st], yielded[st] = map[string]bool{}, map[string]bool{}
+				for k := range model[st] {
+					stable[st][k] = true
+				}
+				for _, k := range r.Keys {
+					if _, ok := model[st][k]; !ok {
+						viol(res, "scan-yields-absent-key", subj(r), "first page of a paused Scan of store %d yielded %q which is not present [%s]", st, k, p.Variant)
+					}
+				}
+			}
+			if stable[st] == nil {
+				continue
+			}
+			for _, k := range r.Keys {
+				yielded[st][k] = true
+			}
+			if r.Op.Tag != "begin" || r.Has {
+				for k := range stable[st] {
+					if !yielded[st][k] {
+						viol(res, "paused-scan-misses-stable-key", subj(r), "a Scan of store %d that was paused after one page and resumed after deletes/compaction never yielded %s, which was present and untouched from its first to its last page (yielded %v) [%s]", st, k, sortedKeys(yielded[st]), p.Variant)
+					}
+				}
+				stable[st] = nil
+			}
 		case "eng.del":
 			if r.Err != "" {
 				viol(res, "delete-failed", subj(r), "Delete(%s) failed: %s", r.Op.Key, r.Err)
 			}
 			delete(model[st], r.Op.Key)
+			delete(stable[st], r.Op.Key)
 		case "eng.updatettl":
+			delete(stable[st], r.Op.Key)
 			e, ok := model[st][r.Op.Key]
 			if ok != (r.Err == "") || (!ok && r.Err != plan.ENotFound) {
 				viol(res, "updatettl-result", subj(r), "UpdateTTL(%s) on store %d returned %q, key present=%v [%s]", r.Op.Key, st, r.Err, ok, p.Variant)
@@ -195,6 +258,7 @@ func oracleC11(p *plan.Plan, his []plan.Rec, res *plan.Result) {
 				viol(res, "compaction-does-not-finish", subj(r), "compaction of store %d did not report done within %d steps [%s]", st, r.N, p.Variant)
 			}
 		case "eng.transfer":
+			stable = [2]map[string]bool{}
 			if r.Err != "" {
 				viol(res, "transfer-failed", subj(r), "%s [%s]", r.Err, p.Variant)
 			}
@@ -304,4 +368,13 @@ func matchPat(pat, k string) bool {
 		return strings.HasSuffix(k, "1")
 	}
 	return false
+}
+
+func sortedKeys(m map[string]bool) []string {
+	var o []string
+	for k := range m {
+		o = append(o, k)
+	}
+	sort.Strings(o)
+	return o
 }
